@@ -96,9 +96,10 @@ variable {sch : Scheme} {np : Option Nat} {cn : Int} {cd : Nat} {r : List (List 
 theorem paths_head_is_top_path {pf : List Nat × Nat} {rest : List (List Nat × Nat)}
     (h : paths n F S T sch np cn cd = .ok (pf :: rest)) :
     topPath n F S T = .ok (pf.1, .fin pf.2) := by
-  unfold paths at h
+  obtain ⟨-, h⟩ := paths_ok_loop h
   rcases pathsLoop_succ_ok n S T sch np cn cd _ _ F 0 0 _ h with
-    ⟨_, _, -, -, hr⟩ | ⟨p, f, htp, ⟨-, hr⟩ | ⟨-, _, _, -, -, hr⟩⟩
+    ⟨-, hr⟩ | ⟨-, _, _, -, -, hr⟩ | ⟨-, p, f, htp, ⟨-, hr⟩ | ⟨-, _, _, -, -, hr⟩⟩
+  · cases hr
   · cases hr
   · cases hr; exact htp
   · cases hr; exact htp
@@ -112,7 +113,7 @@ theorem paths_each_valid_bottleneck_widest (h : paths n F S T sch np cn cd = .ok
       pf.1.Nodup ∧ 2 ≤ pf.1.length ∧ IsWalk n G S T pf.1 ∧
       (∀ e ∈ edges pf.1, pf.2 ≤ G e.1 e.2) ∧ (∃ e ∈ edges pf.1, G e.1 e.2 = pf.2) ∧
       ∀ q, IsWalk n G S T q → ∃ e ∈ edges q, G e.1 e.2 ≤ pf.2 := by
-  obtain ⟨G, hle, htp⟩ := pathsLoop_each n S T sch np cn cd _ _ F 0 0 r h pf hpf
+  obtain ⟨G, hle, htp⟩ := pathsLoop_each n S T sch np cn cd _ _ F 0 0 r (paths_ok_loop h).2 pf hpf
   obtain ⟨v1, v2, v3⟩ := top_path_valid htp
   obtain ⟨b1, b2⟩ := top_path_flux_is_bottleneck htp
   exact ⟨G, hle, v1, v2, v3, b1, b2, fun q hq => top_path_widest_edges htp q hq⟩
@@ -120,7 +121,7 @@ theorem paths_each_valid_bottleneck_widest (h : paths n F S T sch np cn cd = .ok
 /-- successive pathway fluxes never increase (both schemes) -/
 theorem paths_fluxes_antitone (h : paths n F S T sch np cn cd = .ok r) :
     r.Pairwise (fun a b => b.2 ≤ a.2) :=
-  pathsLoop_antitone n S T sch np cn cd _ _ F 0 0 r h
+  pathsLoop_antitone n S T sch np cn cd _ _ F 0 0 r (paths_ok_loop h).2
 
 /-- FULL statement of "the sum never exceeds the total outflow of the sources" (both schemes).
 It is FALSE for the `bottleneck` scheme (`paths_sum_bottleneck_counterexample`, finding F16). -/
@@ -134,7 +135,7 @@ flux, and the outflow stays ≥ 0).  Missing with respect to the full statement:
 scheme, for which the statement is false. -/
 theorem paths_sum_le_outflow_partial (h : paths n F S T .subtract np cn cd = .ok r) :
     fluxSum r ≤ outflow n F S :=
-  pathsLoop_sum_le n S T np cn cd _ _ F 0 0 r h
+  pathsLoop_sum_le n S T np cn cd _ _ F 0 0 r (paths_ok_loop h).2
 
 /-- the F16 witness: `s→a 10, a→b1→t 6, a→b2→t 6` -/
 def witnessF : Nat → Nat → Nat := fun i j =>
@@ -152,30 +153,17 @@ theorem paths_sum_bottleneck_counterexample : ¬ C17_paths_sum_le_outflow_full :
 example : paths 5 witnessF [0] [4] .subtract none 1 1 =
     .ok [([0, 1, 2, 4], 6), ([0, 1, 3, 4], 4)] := by decide
 
-/-- `num_paths` is respected; the loop is a do-while, so a request below one still returns one path -/
+/-- `num_paths` is respected, for every requested count (`num_paths = 0` returns no path: the loop
+is `while counter < num_paths`) -/
 theorem paths_count_le {N : Nat} (h : paths n F S T sch (some N) cn cd = .ok r) :
-    r.length ≤ max 1 N := by
-  have := pathsLoop_count n S T sch cn cd _ N _ F 0 0 r h
+    r.length ≤ N := by
+  have := pathsLoop_count n S T sch cn cd _ N _ F 0 0 r (paths_ok_loop h).2
   omega
 
-theorem paths_count_le_of_pos {N : Nat} (hN : 1 ≤ N)
-    (h : paths n F S T sch (some N) cn cd = .ok r) : r.length ≤ N := by
-  have := paths_count_le h
-  omega
-
-/-- FULL statement "the requested number of paths is respected" for every request, false at 0 -/
-def C17_paths_count_le_full : Prop :=
-  ∀ (n : Nat) (F : Nat → Nat → Nat) (S T : List Nat) (sch : Scheme) (N : Nat) (cn : Int) (cd : Nat)
-    (r : List (List Nat × Nat)), paths n F S T sch (some N) cn cd = .ok r → r.length ≤ N
-
-theorem paths_count_zero_counterexample : ¬ C17_paths_count_le_full := by
-  intro h
-  have hr : paths 5 witnessF [0] [4] .subtract (some 0) 1 1 = .ok [([0, 1, 2, 4], 6)] := by decide
-  have := h 5 witnessF [0] [4] .subtract 0 1 1 _ hr
-  revert this
-  decide
-
+example : paths 5 witnessF [0] [4] .subtract (some 0) 1 1 = .ok [] := by decide
 example : paths 5 witnessF [0] [4] .subtract (some 1) 1 1 = .ok [([0, 1, 2, 4], 6)] := by decide
+example : paths 5 witnessF [0] [4] .bottleneck (some 2) 2 1 =
+    .ok [([0, 1, 2, 4], 6), ([0, 1, 3, 4], 6)] := by decide
 
 /-- the graph of the upstream `test_paths` (fluxes × 10), default cut-off `1 - 1e-10` -/
 def upstreamF : Nat → Nat → Nat := fun i j =>
@@ -190,20 +178,48 @@ example : paths 6 upstreamF [0] [4, 5] .bottleneck none 9999999999 10000000000 =
 example : paths 6 upstreamF [0] [4, 5] .subtract none 1 2 = .ok [([0, 2, 4], 5)] := by decide
 
 /-- the loop of `paths` terminates: at most (number of positive entries + 1) iterations, because every
-removal zeroes a positive entry and raises none; the result is an error exactly when the first
-`top_path` call raises (index ≥ n, or empty sink list) -/
+removal zeroes a positive entry and raises none.  Outcomes: IndexError when a source index is ≥ n
+(`net_flux[sources, :]`); with `num_paths = 0` the empty result without looking at the sinks;
+otherwise what the first `top_path` call does (IndexError for a sink ≥ n, ValueError for an empty
+sink list, else a result). -/
 theorem paths_terminates (n : Nat) (F : Nat → Nat → Nat) (S T : List Nat) (sch : Scheme)
     (np : Option Nat) (cn : Int) (cd : Nat) :
-    (∃ r, paths n F S T sch np cn cd = .ok r ∧ (∀ s ∈ S, s < n) ∧ (∀ t ∈ T, t < n) ∧ T ≠ []) ∨
-    (paths n F S T sch np cn cd = .error .indexError ∧ ¬ ((∀ s ∈ S, s < n) ∧ (∀ t ∈ T, t < n))) ∨
-    (paths n F S T sch np cn cd = .error .valueError ∧ (∀ s ∈ S, s < n) ∧ T = []) := by
+    (∃ r, paths n F S T sch np cn cd = .ok r ∧ (∀ s ∈ S, s < n) ∧
+        ((np = some 0 ∧ r = []) ∨ ((∀ t ∈ T, t < n) ∧ T ≠ []))) ∨
+    (paths n F S T sch np cn cd = .error .indexError ∧
+        ¬ ((∀ s ∈ S, s < n) ∧ ((∀ t ∈ T, t < n) ∨ np = some 0))) ∨
+    (paths n F S T sch np cn cd = .error .valueError ∧ (∀ s ∈ S, s < n) ∧ T = [] ∧ np ≠ some 0) := by
   unfold paths
-  rcases topPath_cases n F S T with ⟨he, hbad⟩ | ⟨he, h1, h2⟩ | ⟨p, fl, -, hS, hT, hne⟩
-  · exact Or.inr (Or.inl ⟨pathsLoop_err n S T sch np cn cd _ _ F 0 0 _ he, hbad⟩)
-  · exact Or.inr (Or.inr ⟨pathsLoop_err n S T sch np cn cd _ _ F 0 0 _ he, h1, h2⟩)
-  · obtain ⟨r, hr⟩ := pathsLoop_ok n S T sch np cn cd (totalFlux n F S) hS hT hne
-      (posEdges n F + 1) F 0 0 (by omega)
-    exact Or.inl ⟨r, hr, hS, hT, hne⟩
+  split
+  · next hg =>
+    refine Or.inr (Or.inl ⟨rfl, ?_⟩)
+    rintro ⟨hS, -⟩
+    simp only [List.any_eq_true, decide_eq_true_eq] at hg
+    obtain ⟨s, hs, hns⟩ := hg
+    have := hS s hs
+    omega
+  · next hg =>
+    have hS : ∀ s ∈ S, s < n := by simpa using hg
+    cases hc : countReached np 0 with
+    | true =>
+      have hnp := (countReached_zero np).1 hc
+      exact Or.inl ⟨[], pathsLoop_reached n S T sch np cn cd _ _ F 0 0 hc, hS, Or.inl ⟨hnp, rfl⟩⟩
+    | false =>
+      have hnp : np ≠ some 0 := fun e => by
+        rw [(countReached_zero np).2 e] at hc; cases hc
+      rcases topPath_cases n F S T with ⟨he, hbad⟩ | ⟨he, h1, h2⟩ | ⟨p, fl, -, -, hT, hne⟩
+      · refine Or.inr (Or.inl ⟨pathsLoop_err n S T sch np cn cd _ _ F 0 0 _ hc he, ?_⟩)
+        rintro ⟨h1, h2 | h2⟩
+        · exact hbad ⟨h1, h2⟩
+        · exact hnp h2
+      · exact Or.inr (Or.inr ⟨pathsLoop_err n S T sch np cn cd _ _ F 0 0 _ hc he, h1, h2, hnp⟩)
+      · obtain ⟨r, hr⟩ := pathsLoop_ok n S T sch np cn cd (totalFlux n F S) hS hT hne
+          (posEdges n F + 1) F 0 0 (by omega)
+        exact Or.inl ⟨r, hr, hS, Or.inr ⟨hT, hne⟩⟩
+
+example : paths 3 (fun _ _ => 0) [0] [] .subtract (some 0) 1 1 = .ok [] := by decide
+example : paths 3 (fun _ _ => 0) [0] [] .subtract none 1 1 = .error .valueError := by decide
+example : paths 3 (fun _ _ => 0) [3] [] .subtract (some 0) 1 1 = .error .indexError := by decide
 
 theorem paths_never_out_of_fuel (n : Nat) (F : Nat → Nat → Nat) (S T : List Nat) (sch : Scheme)
     (np : Option Nat) (cn : Int) (cd : Nat) : paths n F S T sch np cn cd ≠ .error .outOfFuel := by
@@ -228,7 +244,7 @@ theorem paths_reaches_fraction_conserved_partial (rank : Nat → Nat) (hflow : F
     (hS : ∀ s ∈ S, s < n) (hdisj : ∀ s ∈ S, s ∉ T) (hnd : S.Nodup) (hc : cn ≤ (cd : Int))
     (h : paths n F S T .subtract none cn cd = .ok r) :
     cn * (outflow n F S : Int) ≤ (fluxSum r : Int) * (cd : Int) := by
-  unfold paths at h
+  have h := (paths_ok_loop h).2
   rw [totalFlux_eq_outflow n F S hnd hS] at h
   have := pathsLoop_fraction n S T cn cd (outflow n F S) rank hdisj hc _ F 0 0 r hflow
     (Nat.zero_add _) h
